@@ -95,6 +95,21 @@ TEMPORAL = ('{zone: [%s][k + 1], '
             'f: string(d), g: d.year * 10000 + d.month * 100 + d.day, '
             'du: duration("P" + string(k) + "DT" + string(k * 7) + "H")}' % ", ".join('"%s"' % z for z in ZONES))
 
+# 52 zone identifiers: many DIFFERENT zones in use at the same moment (anything remembered per zone name, or keyed on a hash of it, is
+# shared between calls that use different zones)
+MANY_ZONES = ["Europe/Warsaw", "Europe/London", "Europe/Paris", "Europe/Berlin", "Europe/Madrid", "Europe/Rome", "Europe/Moscow", "Europe/Athens",
+              "Europe/Helsinki", "Europe/Dublin", "Atlantic/Reykjavik", "America/New_York", "America/Chicago", "America/Denver",
+              "America/Los_Angeles", "America/Anchorage", "America/Toronto", "America/Vancouver", "America/Halifax", "America/St_Johns",
+              "America/Phoenix", "America/Sao_Paulo", "America/Mexico_City", "America/Lima", "America/Caracas", "Pacific/Honolulu",
+              "Asia/Tokyo", "Asia/Shanghai", "Asia/Kolkata", "Asia/Kathmandu", "Asia/Dubai", "Asia/Tehran", "Asia/Jerusalem", "Asia/Singapore",
+              "Asia/Hong_Kong", "Asia/Seoul", "Asia/Karachi", "Asia/Bangkok", "Asia/Dhaka", "Australia/Sydney", "Australia/Adelaide",
+              "Australia/Perth", "Australia/Lord_Howe", "Australia/Darwin", "Australia/Melbourne", "Pacific/Auckland", "Pacific/Chatham",
+              "Africa/Johannesburg", "Africa/Lagos", "Africa/Nairobi", "Africa/Cairo", "Etc/UTC"]
+MANYZONES = ('{i: modulo(floor(abs(n)) + k * 7, %d) + 1, j: modulo(floor(abs(m)) + k * 3, %d) + 1, zs: [%s], '
+             'a: date and time(string(d) + "T12:00:00@" + zs[i]), b: date and time(string(d) + "T12:00:00@" + zs[j]), '
+             'r: [zs[i], zs[j], a.time offset, b.time offset, a - b, a < b, a - date and time(ts), string(b)]}.r'
+             % (len(MANY_ZONES), len(MANY_ZONES), ", ".join('"%s"' % z for z in MANY_ZONES)))
+
 REGEX = ('{m: matches(s, "^[a-z]+[0-9]*(x|y)?[a-z0-9 ]*$"), r: replace(s, "([a-z])([0-9])", "$2-$1"), '
          'sp: split(s, "[0-9]+"), u: upper case(s), c: string length(s), '
          'r2: replace(s + string(k), "[aeiou]+", "<" + string(k) + ">"), i: matches(s, "A.*B", "i"), '
@@ -141,6 +156,7 @@ def build():
     parts.append(_decision("Powers", "_powers", _req_inputs(["n", "m"]), _literal(POWERS)))
     parts.append(_decision("Rounding", "_rounding", _req_inputs(["n", "m"]), _literal(ROUNDING)))
     parts.append(_decision("Temporal", "_temporal", _req_inputs(["d", "ts", "k"]), _literal(TEMPORAL)))
+    parts.append(_decision("ManyZones", "_manyzones", _req_inputs(["n", "m", "k", "d", "ts"]), _literal(MANYZONES)))
     parts.append(_decision("Regex", "_regex", _req_inputs(["s", "k"]), _literal(REGEX)))
     parts.append(_decision("Flags", "_flags", _req_inputs(["s", "k"]), _literal(FLAGS)))
     parts.append(_decision("Grid", "_grid", _req_inputs(["k", "n"]),
@@ -200,12 +216,12 @@ XML = build()
 # invocables by workload class (the property's "numeric, temporal, regular-expression and decision-table heavy")
 CLASSES = {
     "numeric": ["Numeric", "Powers", "Rounding"],
-    "temporal": ["Temporal"],
+    "temporal": ["Temporal", "ManyZones"],
     "regex": ["Regex", "Flags", "Priority"],
     "table": ["Grid", "Collect", "Priority", "Ranked", "Ordered", "Listed", "Least"],
     "nested": ["Top", "Mid", "Outer", "Svc", "Leaf", "Calc", "Band"],
 }
-INVOCABLES = ["Numeric", "Powers", "Rounding", "Temporal", "Regex", "Flags", "Grid", "Collect", "Priority", "Ranked", "Ordered", "Listed", "Least", "Base", "Leaf", "Svc", "Calc", "Band",
+INVOCABLES = ["Numeric", "Powers", "Rounding", "Temporal", "ManyZones", "Regex", "Flags", "Grid", "Collect", "Priority", "Ranked", "Ordered", "Listed", "Least", "Base", "Leaf", "Svc", "Calc", "Band",
               "Mid", "Top", "Outer"]
 
 
